@@ -117,6 +117,12 @@ func TestVerifC17ClientRaw(t *testing.T) {
 				wantBody, _ = verifkit.RawStreamExpected(sc)
 			}
 		}
+		declaredLen := false
+		if len(wantBody) > 0 && rng.Chance(1, 3) {
+			// a raw request may declare its own (truthful) Content-Length, under any spelling of the name
+			declaredLen = true
+			raw.Headers = append(raw.Headers, &conformancev1.Header{Name: verifkit.Pick(rng, []string{"Content-Length", "content-length", "CONTENT-LENGTH", "Content-length"}), Value: []string{fmt.Sprint(len(wantBody))}})
+		}
 		normal, _ := anypb.New(&conformancev1.UnaryRequest{RequestData: []byte("NORMAL-REQUEST-BODY-MUST-NOT-APPEAR")})
 		req := &conformancev1.ClientCompatRequest{TestName: name, HttpVersion: ver, Protocol: conformancev1.Protocol_PROTOCOL_CONNECT, Codec: conformancev1.Codec_CODEC_PROTO, Compression: conformancev1.Compression_COMPRESSION_IDENTITY,
 			Host: host, Port: port, Service: proto.String("connectrpc.conformance.v1.ConformanceService"), Method: proto.String("Unary"), StreamType: conformancev1.StreamType_STREAM_TYPE_UNARY,
@@ -159,6 +165,12 @@ func TestVerifC17ClientRaw(t *testing.T) {
 		for _, h := range raw.Headers {
 			if got := c.Header.Values(h.Name); !reflect.DeepEqual(got, h.Value) {
 				rep.Violation("raw/client/header", fmt.Sprintf("header %s: got %q want %q", h.Name, got, h.Value), w)
+			}
+		}
+		if declaredLen {
+			rep.Count("declared_content_length", 1)
+			if c.ContentLength != int64(len(wantBody)) || len(c.TransferEncoding) > 0 {
+				rep.Violation("raw/client/declared-content-length-not-sent", fmt.Sprintf("the definition declares Content-Length %d; the server saw content length %d, transfer encoding %v", len(wantBody), c.ContentLength, c.TransferEncoding), w)
 			}
 		}
 		if c.Header.Get("X-Normal-Header") != "" {
